@@ -927,10 +927,10 @@ func run(c *lib.Ctx) {
 		"non-trivial = the monitor saw >=1 pk with >=2 buffered operations in one batch AND >=1 operation that changed an indexed field of a present row AND >=1 listing that returned rows")
 	c.Assume("index values and primary keys never contain the separator '-' (the record format `index-value-pk` is ambiguous otherwise; not part of the statement)",
 		"blockchain/blocktable.go only instantiates the table package for headers/bodies; it is covered through the table package itself")
-	nClean := c.N(3000, 50000)
-	nTrig := c.N(1200, 20000)
-	nJoin := c.N(1000, 20000)
-	nJoinTrig := c.N(400, 8000)
+	nClean := c.N(3000, 80000)
+	nTrig := c.N(1200, 32000)
+	nJoin := c.N(1000, 32000)
+	nJoinTrig := c.N(400, 13000)
 	type job struct {
 		stratum    string
 		idx, local int
